@@ -783,6 +783,8 @@ def _clamp_kind(x, ss, arrays):
     c = _is_call(x, ("minimum", "fmin"), ["x1", "x2"])
     if c and ((same(c.get("x1"), ss) and is_last(c.get("x2"))) or (same(c.get("x2"), ss) and is_last(c.get("x1")))):
         return "clamped"
+    if c and ((same(c.get("x1"), ss) and is_size(c.get("x2"))) or (same(c.get("x2"), ss) and is_size(c.get("x1")))):
+        return "raw"                # min(index, size): == size stays
     c = _is_call(x, ("clip",), ["a", "a_min", "a_max"])
     if c:
         lo, hi = c.get("a_min", c.get("min")), c.get("a_max", c.get("max"))         # np.clip(a, a_min, a_max) / a.clip(min=, max=)
@@ -869,7 +871,10 @@ def _analyse_lookup1(p, obs):
         return L
     L.res["sorter-map"] = ("ok", None)
     if "raw" in kinds:
-        L.res["clamp"] = ("fail", {"use": _show(kinds["raw"]), "consequence": "a key above the maximum gives index == size: IndexError"})
+        if any(contains(e, L.ss) for e in getattr(p.ev, "escaped", [])):
+            L.res["clamp"] = ("error", "the insertion index is handed to a call statement this rule does not know (it may be clamped in place there)")
+        else:
+            L.res["clamp"] = ("fail", {"use": _show(kinds["raw"]), "consequence": "a key above the maximum gives index == size: IndexError"})
         return L
     if None in kinds:
         L.res["clamp"] = ("error", "index derived from the insertion point in a way this rule does not know: " + _show(app(kinds[None], "idx")[1]))
